@@ -1011,8 +1011,9 @@ def judge(w: World, scn: dict, st: dict):
         cls = "C11.foreign_globals"
 
         def leak(val) -> str:
-            return " - that is a name of the CALLING file" if isinstance(val, str) and val.startswith(
-                ("local:" + fid, fid)) or val in (-1, -100) else ""
+            from_caller = (isinstance(val, str) and val.startswith(("local:" + fid, fid))) or \
+                (isinstance(val, int) and val in (-1, -100))
+            return " - that is a name of the CALLING file" if from_caller else ""
 
         if got.get("tag") != g:
             viol(cls, {"at": "inner_function", "what": "tag"},
